@@ -19,7 +19,11 @@ type C08Case struct {
 	Syntax   string `json:"syntax"`
 	Debug    bool   `json:"debug"`
 	Flaw     string `json:"flaw,omitempty"`
-	Profile  string `json:"profile"`
+	// which entry point receives the profile: "" = CompileProfile; "validate" = Validate; "validate-cfg" = ValidateWithConfiguration
+	// under the report configuration RC (every combination of its fields is a different call path a caller can take)
+	Via      string  `json:"via,omitempty"`
+	RC       *caseRC `json:"rc,omitempty"`
+	Profile  string  `json:"profile"`
 	Data     string `json:"data"`
 }
 
@@ -180,6 +184,16 @@ func genC08(g *G, n int, out io.Writer, full bool) {
 				for _, dbg := range debugs {
 					enc.Encode(C08Case{Op: "c08", Id: id, Builtin: b.Name, Position: pos, Syntax: syn, Debug: dbg, Profile: prof, Data: "[]"})
 					id++
+				}
+				if forbidden[b.Name] && (syn == "assign" || syn == "statement") && (pos == "rego" || pos == "helper" || pos == "nested" || pos == "code-message") {
+					// the same profile handed to the validating entry points, under several report configurations
+					enc.Encode(C08Case{Op: "c08", Id: id, Builtin: b.Name, Position: pos, Syntax: syn, Via: "validate", Profile: prof, Data: "[]"})
+					id++
+					for _, rc := range []caseRC{{"file:///dialects/validation-report.yaml", "file:///dialects/lexical.yaml", false}, {"", "", true}, {"http://x.org/r", "http://x.org/l", false}} {
+						r := rc
+						enc.Encode(C08Case{Op: "c08", Id: id, Builtin: b.Name, Position: pos, Syntax: syn, Via: "validate-cfg", RC: &r, Profile: prof, Data: okData})
+						id++
+					}
 				}
 				if forbidden[b.Name] && syn == "assign" && b.Name != "walk" && b.Decl != nil {
 					// the built-in is never CALLED by name: a `with` modifier binds it to another function of the same arity
